@@ -22,6 +22,11 @@ MIN_OBLIGATIONS = 18
 
 
 def run(repo, chk):
+    _run(repo, chk)
+    rule_trust_order(repo, chk)
+
+
+def _run(repo, chk):
     chk.not_decided = ['cryptographic strength of MD5/SHA1 digests', 'nonce freshness / replay of Digest responses', 'session fixation through a guessed uuid']
     chk.rule('C20.a', 'check_auth returns something truthy only after checkResponse() succeeded')
     chk.rule('C20.b', 'a missing user entry (password None) never reaches checkResponse()')
@@ -349,3 +354,31 @@ def rule_e(repo, chk):
             continue
         q = pat.guarded_by(g, n, trusted)
         chk.ob('e', h.ref, 'the routing domain is overridden only under the gateway test', q is None, loc(h, n.ast), discr='override-guard')
+
+
+def rule_trust_order(repo, chk):
+    """The trust decision reads request.remote: it must run before every request handler that rewrites request.remote from client data."""
+    from .common import attribute_writers, WEB_VHOSTS
+    chk.rule('C20.f', 'VirtualHosts decides gateway trust on the address of the transport peer: its request handler has a strictly higher priority than every '
+                      'request handler that assigns request.remote (tools.ReverseProxy takes it from a header the client controls)')
+    v = repo.func(WEB_VHOSTS, 'VirtualHosts._on_request')
+    chk.touch(v)
+
+    def prio(f):
+        if f.handler is None or f.handler.priority is None:
+            return 0.0
+        try:
+            return float(ast.literal_eval(f.handler.priority))
+        except Exception:
+            return None
+    pv = prio(v)
+    n_w = 0
+    for f, node, recv, val, m in attribute_writers(repo, 'remote'):
+        if f is None or f.handler is None or 'request' not in f.handler.names or not m.relpath.startswith('circuits/web/'):
+            continue
+        n_w += 1
+        chk.touch(f)
+        pw = prio(f)
+        chk.ob('f', v.ref, f'the trust decision (priority {pv}) runs before `{f.qualname}` (priority {pw}) rewrites request.remote', pv is not None and pw is not None and pv > pw,
+               f'{m.relpath}:{node.lineno}', discr=f'trust-before-rewrite:{f.qualname}')
+    chk.ob('f', v.ref, 'request handlers that rewrite request.remote were looked for', True, loc(v, v.node), detail=f'{n_w} found', discr='rewriters', nontrivial=False)
